@@ -389,6 +389,10 @@ CATALOGUE += [
      "af = 1.5\naf += 1\n" + T("af") + "ab = B5\nab *= 2\n" + T("ab") + "ai = 5\nyb = 0b1\nai -= yb\n" + T("ai") + "ay = 0b1\nay += 0b1\n" + T("ay") + "st = \"a\"\nst += 1\n" + T("st") + "st *= 2\n" + T("st")),
     ("byte_with_numbers",
      "yb = 0b11\n" + T("yb + 1") + T("1.5 * yb") + T("yb - yb") + T("B2 * yb") + T("\"a\" + yb") + T("yb + \"a\"") + T("yb < 4") + T("yb == 3")),
+    # the `x % -1` / `x / -1` corner of every kind pair (a shortcut arm that answers with the wrong kind)
+    ("rem_and_div_by_minus_one_kinds",
+     "tb = B10\nti = 10\ntf = 2.5\nsi = -1\nsb = -B1\n" + T("tb % si") + T("tb / si") + T("ti % sb") + T("ti / sb") + T("tb % sb") + T("ti % si") + T("tf % si")
+     + "rq = tb % si\n" + T("rq + 2147483647 + 1")),
     # modify of a captured optional between nil and present
     ("modify_captured_optional_nil_to_present_and_back",
      "last: int? = nil\nnone: int? = nil\nseen = 0\nrec = fn(v: int) {\n modify last = v\n modify seen = seen + 1\n}\nclr = fn() {\n modify last = none\n}\n" + T("last == nil") + "rec(4)\n" + T("last") + T("get last")
